@@ -244,3 +244,16 @@ def set_path(val, dotted, v):
     for p in parts[:-1]:
         cur = cur.setdefault(p, {})
     cur[parts[-1]] = v
+
+
+def to_native_kwargs(desc, kw):
+    """Flattened keyword arguments: kw = {python_param_name: {"path": "a.b", "value": v}} where v is
+    the valuation-form value of the (possibly nested) request field at ``path``."""
+    out = {}
+    for param, spec in kw.items():
+        d = desc
+        parts = spec["path"].split(".")
+        for p in parts[:-1]:
+            d = d.fields_by_name[p].message_type
+        out[param] = to_native(d, {parts[-1]: spec["value"]})[parts[-1]]
+    return out
